@@ -161,9 +161,13 @@ macro_rules! flavour_impl {
                     let g3: Result<Graph<K, N, E>, _> = serde_cbor::from_slice(&bytes);
                     return match g3 { Ok(_) => json!({"result": "ok"}), Err(_) => json!({"result": "err"}) };
                 }
-                let text = serde_json::to_string(&Value::Array(outer.clone())).unwrap();
+                let tail = doc.get("tail").and_then(|t| t.as_str()).unwrap_or("");
+                if tail == "extra" { outer.push(json!(0)); }
+                let mut text = serde_json::to_string(&Value::Array(outer.clone())).unwrap();
+                if tail == "err" { text.pop(); }                       // the closing bracket is cut off
                 let g2: Result<Graph<K, N, E>, _> = serde_json::from_str(&text);
-                let bytes = serde_cbor::to_vec(&Value::Array(outer)).unwrap();
+                let mut bytes = serde_cbor::to_vec(&Value::Array(outer)).unwrap();
+                if tail == "err" { bytes[0] += 1; }                     // array(n) announced as array(n+1): the input ends early
                 let g3: Result<Graph<K, N, E>, _> = serde_cbor::from_slice(&bytes);
                 let view = |gg: &Graph<K, N, E>| -> Value {
                     let ms: Vec<Node<K, N, E>> = order.iter().filter_map(|k| gg.get(k)).collect();
